@@ -717,7 +717,11 @@ void parseFrame(void *frame, void *iface_ctx) {
         return;
     }
 
-    if (header->opcode == opcode_discover) {
+    /* Opcode numbers are per service: only the discovery services have a Discover (opcode 0 of the
+     * QoS diagnostics service is a different frame and must not touch the mapper state). */
+    bool discovery_service = (header->tos == tos_discovery || header->tos == tos_quick_discovery);
+
+    if (discovery_service && header->opcode == opcode_discover) {
         lltd_discover_upper_header_t *disc_header =
             (lltd_discover_upper_header_t *)((uint8_t *)frame + sizeof(*header));
         uint16_t generation_host = lltd_ntohs(disc_header->generation);
